@@ -149,8 +149,10 @@ def finish(ck, rule, assumptions, extra=None, level=None):
             hits.setdefault(m['key'], (m, key, wit))
         else:
             new.append((key, wit))
-    os.makedirs(os.path.join(VERIF, 'evidence'), exist_ok=True)
-    rdir = os.path.join(VERIF, 'replays', ck.pid)
+    # seeded-defect experiments (tools/seedtest.py) redirect their output so that committed evidence stays the unchanged tree's
+    evdir = os.environ.get('VERIF_EVIDENCE_DIR') or os.path.join(VERIF, 'evidence')
+    os.makedirs(evdir, exist_ok=True)
+    rdir = os.path.join(os.environ.get('VERIF_EVIDENCE_DIR') or os.path.join(VERIF, 'replays'), ck.pid)
     lines = []
     for m, key, wit in hits.values():
         lines.append(f"KNOWN-FINDING: property={ck.pid} {m['what']} [key={key} seen={ck.violation_counts[key]}]")
@@ -185,7 +187,7 @@ def finish(ck, rule, assumptions, extra=None, level=None):
         'wall_s': round(time.time() - ck.t0, 2),
         'violations': len(new),
     }
-    with open(os.path.join(VERIF, 'evidence', f'{ck.pid}.json'), 'w') as f:
+    with open(os.path.join(evdir, f'{ck.pid}.json'), 'w') as f:
         json.dump(ev, f, indent=1)
     for ln in lines:
         print(ln)
